@@ -895,7 +895,13 @@ pub fn mem_plan<V: Val>() -> MemPlan {
 pub fn specs_for<V: Val>(property: &str, thorough: bool) -> Vec<Spec> {
     let mp = mem_plan::<V>();
     let mut out = Vec::new();
-    let limits: Vec<Option<usize>> = if thorough { vec![None, Some(1), Some(2), Some(3), Some(4)] } else { vec![None, Some(1), Some(2)] };
+    let limits: Vec<Option<usize>> = if thorough && property != "C16" {
+        vec![None, Some(1), Some(2), Some(3), Some(4)]
+    } else if thorough || property == "C07" {
+        vec![None, Some(1), Some(2), Some(3)]
+    } else {
+        vec![None, Some(1), Some(2)]
+    };
     let ttls: Vec<Option<u64>> = if thorough { vec![None, Some(1), Some(2), Some(3)] } else { vec![None, Some(2)] };
     let mems: Vec<Option<usize>> = if thorough { vec![None, Some(mp.tight), Some(mp.loose)] } else { vec![None, Some(mp.tight)] };
     for fl in Flavour::ALL {
@@ -974,6 +980,10 @@ fn spec_for<V: Val>(property: &str, thorough: bool, cfg: Config, mp: &MemPlan) -
     }
     if nkeys >= 4 && hitc {
         depth = depth.min(if thorough { 7 } else { 5 });
+    }
+    if property == "C16" && thorough {
+        // the full product (2 000+ configurations): one level less than the policy-specific checks
+        depth = depth.min(6);
     }
     Some(Spec { cfg, nkeys: nkeys.min(5), variants, depth, tick_ns, include_stats: property == "C15" })
 }
